@@ -47,7 +47,7 @@ from . import c06 as _v
 
 N_LEX = 44     # per-rule extents and the solver-produced lexemes
 N_STEP = 16    # the composed lex1 step (priority chain over all rules)
-ACTION_LENS = (6, 3, 2)     # a token action is tried on all strings of <= 6 code points; if CrossHair cannot close that
+ACTION_LENS = (6, 3, 2, 1)     # a token action is tried on all strings of <= 6 code points; if CrossHair cannot close that
 ACTION_LEN = ACTION_LENS[0]  # (e.g. str.upper() forks per character) the bound is lowered to 3, then 2, and reported
 ERR_VALUES = ("", "x", "'", "''", "\x00", "\n", "a b", "é", "\ud800", "\U0001d7d8", "%" * 40, "{}", "%s", "\\")
 ERR_INDEX = (0, 1, 65535)
